@@ -746,7 +746,7 @@ def realpoll_case(rng):
 
 
 # ----------------------------------------------------------------------------------------
-CLAUSES = ['multicomm_atomic', 'exchange_atomic', 'delays_honoured', 'stale_discarded', 'reply_pairing', 'fails_within_timeout',
+CLAUSES = ['multicomm_atomic', 'exchange_atomic', 'delays_honoured', 'transaction_protected', 'stale_discarded', 'reply_pairing', 'fails_within_timeout',
            'state_visible', 'closed_visible', 'state_not_overwritten', 'reconnect_rate_limited', 'attempts_atomic', 'callbacks_once', 'polling_resumes']
 
 
